@@ -437,7 +437,37 @@ func runC05(c *Ctx) {
 					}
 				}
 			}
-			for _, b := range cp.Blocks {
+			// the announced total: the value the completion test compared with, or any value that is the header's
+			// SubPackageSum (through conversions, locals and the parameters of helpers the loop was moved into)
+			isTotal := func(v ssa.Value) bool {
+				cands := c.resolveParam(v, "service")
+				if len(cands) == 0 {
+					return false
+				}
+				for _, cv := range cands {
+					if total != nil && cv == total {
+						continue
+					}
+					fromSum := false
+					for _, o := range c.origins(cv, nil, nil) {
+						if o.Kind == "field" && strings.HasSuffix(o.Name, ".SubPackageSum") {
+							fromSum = true
+						} else {
+							fromSum = false
+							break
+						}
+					}
+					if !fromSum {
+						return false
+					}
+				}
+				return true
+			}
+			var famBlocks []*ssa.BasicBlock
+			for _, ff := range c.familyOf(cp) {
+				famBlocks = append(famBlocks, ff.Blocks...)
+			}
+			for _, b := range famBlocks {
 				for _, ins := range b.Instrs {
 					app, isApp := isBuiltinCall(ins, "append")
 					if !isApp || len(app.Call.Args) != 2 {
@@ -469,7 +499,7 @@ func runC05(c *Ctx) {
 							if k, isK := constInt(sl.Low); isK && k == 0 {
 								lowOK = true
 							}
-							if lowOK && total != nil && sl.High == total {
+							if lowOK && sl.High != nil && isTotal(sl.High) {
 								ok, d = true, ""
 							} else {
 								d = "the concatenation runs over a re-slice of the part table: the parts behind it are dropped from the completed message"
@@ -501,7 +531,7 @@ func runC05(c *Ctx) {
 						}
 						switch {
 						case !init || !step || bound == nil:
-						case total != nil && bound == total:
+						case isTotal(bound):
 							ok, d = true, ""
 						default:
 							if ln, isLn := isBuiltinCall(instrOf(bound), "len"); isLn {
